@@ -292,7 +292,12 @@ def outer(repo: Repo) -> List[Ob]:
                 prods.append((n, fa))
         if not prods:
             raise AnalysisError(f"OUTER: no ket x bra product found in {q}")
+        from ..cfg import resolve_at as _resolve_at
         for i, (n, (a, b, how)) in enumerate(prods, 1):
+            # a factor named first (`bra = jnp.conj(psi.T)` … dot(psi, bra)) is read through its reaching definition
+            at = cfg.node_containing(n)
+            if at is not None:
+                a, b = _resolve_at(cfg, at, a, depth=3), _resolve_at(cfg, at, b, depth=3)
             ca, cb = _has_conj(a), _has_conj(b)
             key = f"outer#{i}"
             if cb and not ca:
